@@ -41,3 +41,14 @@ Theorem C04_all_paths_keep_the_accounting :
   forall pri c, Inv_cfg c -> step_hyp c -> step_goal c (step pri c).
 Proof. exact step_inv. Qed.
 Print Assumptions C04_all_paths_keep_the_accounting.
+
+(** the history-level form: everything destroyed, every Weak dropped, nothing
+    leaked by a panic => the library holds no memory *)
+Theorem C04_fully_collected_graph_leaks_nothing :
+  forall s, Inv s [] ->
+  (forall o b, nth_error (heap_of s) o = Some b -> live b = false) ->
+  (forall o, w_held (sw_weak o) s = 0) ->
+  (forall o, n_leak o (log s) = 0) ->
+  forall o b, nth_error (heap_of s) o = Some b -> freed b = true /\ links b = None /\ value b = None.
+Proof. exact all_destroyed_all_released. Qed.
+Print Assumptions C04_fully_collected_graph_leaks_nothing.
